@@ -54,6 +54,9 @@ class GenericGroupRegistry(
         """Generate subclasses on the fly and attach them to self"""
         super()._init_dynamic_classes()
         self.Group = create_class_with_registry(self, objects.Group)
+        # When the registry is deep copied, the copied groups must belong to it.
+        for group in getattr(self, "_groups", {}).values():
+            group.__class__ = self.Group
 
     def _after_init(self) -> None:
         """Invoked at the end of ``__init__``.
